@@ -84,6 +84,10 @@ pub fn check_layout(module: &Module) -> Result<(), LayoutError> {
                 layout_metal,
             ));
         }
+
+        if has_same_offsets(module, ty) != Some(true) {
+            return Err(LayoutError::MismatchedOffsets(loc));
+        }
     }
 
     Ok(())
@@ -92,6 +96,7 @@ pub fn check_layout(module: &Module) -> Result<(), LayoutError> {
 pub enum LayoutError {
     UnknownLayout(SourceLocation),
     MismatchedLayout(SourceLocation, Layout, Layout),
+    MismatchedOffsets(SourceLocation),
 }
 
 impl CompileError for LayoutError {
@@ -110,6 +115,11 @@ impl CompileError for LayoutError {
                         lhs.size, lhs.align, rhs.size, rhs.align,
                     )
                 },
+                *loc,
+                Severity::Error,
+            ),
+            LayoutError::MismatchedOffsets(loc) => w.write_message(
+                &|f| write!(f, "struct has different field offsets on HLSL and Metal"),
                 *loc,
                 Severity::Error,
             ),
@@ -165,6 +175,8 @@ fn get_type_layout(module: &Module, ty: TypeId, mode: PackingMode) -> Option<Lay
                 layout.size += member_layout.size;
                 layout.align = layout.align.max(member_layout.align);
             }
+            // A struct used as a member or array element occupies a multiple of its alignment
+            layout.size = layout.size.next_multiple_of(layout.align);
             Some(layout)
         }
         TypeLayer::StructTemplate(_) => panic!("unexpected struct template"),
@@ -181,5 +193,45 @@ fn get_type_layout(module: &Module, ty: TypeId, mode: PackingMode) -> Option<Lay
         TypeLayer::Array(_, None) => None,
         TypeLayer::TemplateParam(_) => panic!("unexpected template param"),
         TypeLayer::Modifier(_, ty) => get_type_layout(module, ty, mode),
+    }
+}
+
+/// Check that every field inside a type has the same byte offset under both packing rules
+fn has_same_offsets(module: &Module, ty: TypeId) -> Option<bool> {
+    let tyl = module.type_registry.get_type_layer(ty);
+    match tyl {
+        TypeLayer::Struct(sid) => {
+            let def = &module.struct_registry[sid.0 as usize];
+            let mut offset_hlsl = 0u32;
+            let mut offset_metal = 0u32;
+            for member in &def.members {
+                let layout_hlsl =
+                    get_type_layout(module, member.type_id, PackingMode::HlslStructuredBuffer)?;
+                let layout_metal = get_type_layout(module, member.type_id, PackingMode::Metal)?;
+                offset_hlsl = offset_hlsl.next_multiple_of(layout_hlsl.align);
+                offset_metal = offset_metal.next_multiple_of(layout_metal.align);
+                if offset_hlsl != offset_metal {
+                    return Some(false);
+                }
+                if !has_same_offsets(module, member.type_id)? {
+                    return Some(false);
+                }
+                offset_hlsl += layout_hlsl.size;
+                offset_metal += layout_metal.size;
+            }
+            Some(true)
+        }
+        TypeLayer::Array(inner, Some(count)) => {
+            // Elements after the first are placed by the element size
+            let layout_hlsl = get_type_layout(module, inner, PackingMode::HlslStructuredBuffer)?;
+            let layout_metal = get_type_layout(module, inner, PackingMode::Metal)?;
+            if count > 1 && layout_hlsl.size != layout_metal.size {
+                return Some(false);
+            }
+            has_same_offsets(module, inner)
+        }
+        TypeLayer::Modifier(_, inner) => has_same_offsets(module, inner),
+        // Scalars, enums and vectors store their components consecutively in both languages
+        _ => Some(true),
     }
 }
